@@ -216,7 +216,13 @@ func init() {
 				x.Quiesce(6 * time.Second)
 			}
 		},
+		Conform: func() []explore.Params {
+			return []explore.Params{{"mix": "nextid-mux"}, {"mix": "nextid-grpc"}, {"mix": "dispense3:netrpc"}, {"mix": "call-kill:grpc"}}
+		},
 		Instances: func(tier string) []explore.Params {
+			if tier == "c06" { // C06: every net/rpc Dispense reaches the server object created for it
+				return []explore.Params{{"mix": "dispense3:netrpc"}, {"mix": "nextid-mux"}}
+			}
 			out := []explore.Params{{"mix": "nextid-mux"}, {"mix": "nextid-grpc"}}
 			for _, proto := range []string{"netrpc", "grpc", "grpcmux"} {
 				for _, k := range []string{"dispense3", "dispense-kill", "call-kill", "broker-kill", "accessors-kill"} {
